@@ -221,7 +221,9 @@ def rule_no_conflict_dropped(rep, crate):
     g = crate.fns.get('graph::dfa_util::get_states')
     ic = crate.fns.get('graph::dfa_util::iter_children')
     if rep.anchor(rid, 'fn get_states / iter_children', g is not None and ic is not None):
-        ok = bool(find_calls(g, r'dfa_util::iter_children$')) and bool(find_calls(g, r'(HashSet::<T, S, A>|BTreeSet::<T, A>|BTreeSet::<T>)::insert$')) and bool(find_calls(g, r'Vec::<T, A>::push$'))
+        fam = crate.body_family(g)       # the function and its closures (insert may sit in a filter closure)
+        has = lambda pat: any(find_calls(f, pat) for f in fam)
+        ok = has(r'dfa_util::iter_children$') and has(r'(HashSet::<T, S, A>|HashSet::<T, S>|BTreeSet::<T, A>|BTreeSet::<T>)::insert$') and has(r'Vec::<T, A>::push$|Extend<.*>>::extend$|Vec::<T, A>::extend\w*$|::extend_one$')
         d = ret_desc(ic)
         rng = re.search(r'RangeInclusive::<Idx>::new\(const:0,const:255\)', d) is not None
         clo = [c for c in crate.closures_of(ic)]
